@@ -191,10 +191,16 @@ where
         let channel = endpoint::IncomingChannel(channel);
         let remote_open = match body {
             FrameBody::Open(open) => open,
-            FrameBody::Close(close) => match close.error {
-                Some(error) => return Err(OpenError::RemoteClosedWithError(error)),
-                None => return Err(OpenError::RemoteClosed),
-            },
+            FrameBody::Close(close) => {
+                let error = match &close.error {
+                    Some(error) => OpenError::RemoteClosedWithError(error.clone()),
+                    None => OpenError::RemoteClosed,
+                };
+                // Record the peer's close, so that it is answered with a close
+                // instead of being waited for a second time
+                let _ = self.connection.on_incoming_close(channel, close);
+                return Err(error);
+            }
             _ => return Err(OpenError::IllegalState),
         };
 
